@@ -25,6 +25,8 @@ TERMINI_SHAPES = {
     "AAW": ["ALA", "GLY", "WAT"], "AAL": ["ALA", "GLY", "LIG"], "AAWW": ["ALA", "GLY", "WAT", "WAT"],
     "NN": ["DA", "DT"], "NNN": ["DA", "DC", "DG"], "N": ["DA"], "RR": ["RA", "RU"], "NNW": ["DA", "DT", "WAT"],
     "W": ["WAT"], "WW": ["WAT", "WAT"], "AAX": ["ALA", "GLY", "NME?"],
+    # an amide cap followed by hetero groups of the same chain; an unknown residue inside a (possibly cyclic) peptide
+    "AAXW": ["ALA", "GLY", "NME?", "WAT"], "AAXL": ["ALA", "GLY", "NME?", "LIG"], "AUA": ["ALA", "LIG", "GLY"], "AUUA": ["SER", "LIG", "LIG", "ALA"],
 }
 
 
